@@ -1,10 +1,7 @@
 package rules
 
 import (
-	"fmt"
 	"go/ast"
-	"go/token"
-	"go/types"
 	"strings"
 
 	"lachk/core"
@@ -14,7 +11,7 @@ const mdP = "kvdb/multidb."
 
 func init() {
 	register("C26", "other", "T10 MapOrder, T11 Determinism effects, T2 Dominates (conflict loop before recording), T8 DecisionTable (scenario form: feasible paths under a valuation of the semantic atoms; field coverage in verification)",
-		"Decides the structural conditions of deterministic, isolating routing: nothing reachable from NewProducer/RouteOf/OpenDB/Verify in the multidb and fmtfilter packages draws randomness or time, and no map is ranged over in a way that lets the iteration order reach the result — in particular the pattern routes, which RouteOf tries first-match, must not be kept in map iteration order; in RouteOf a pattern is tried only after the exact table had no entry, and after a pattern matched no further pattern is tried for the same request; a request is recorded (WriteTablesList) only after the complete scan over the recorded requests, in which — for every element, however the tests are nested or spelled — a recorded table that is a prefix of / prefixed by the routed table of another request, and the same request with a different table, leave the iteration only through error returns, while the same request with the same table is never refused; the conflict test returns true whenever one table is a prefix of the other; OpenDB hands out a store only after handleRoute returned nil and wraps it with the routed table; verification compares type, name and table of every recorded request with its current route. The behaviour of Sscanf-based pattern matching itself is not decided.",
+		"Decides the structural conditions of deterministic, isolating routing: nothing reachable from NewProducer/RouteOf/OpenDB/Verify in the multidb and fmtfilter packages draws randomness or time, and no map is ranged over in a way that lets the iteration order reach the result — in particular the pattern routes, which RouteOf tries first-match, must not be kept in map iteration order (a slice collected in map order counts as ordered only if it is sorted by a total order of its elements); in RouteOf, or in the function it calls to make the search, a pattern is tried only after the exact table had no entry, and after a pattern matched no further pattern is tried for the same request; a request is recorded (WriteTablesList) only after the complete scan over the recorded requests, in which — for every element, however the tests are nested or spelled — a recorded table that is a prefix of / prefixed by the routed table of another request, and the same request with a different table, leave the iteration only through error returns, while the same request with the same table is never refused; the conflict test returns true whenever one table is a prefix of the other; OpenDB hands out a store only after handleRoute returned nil and wraps it with the routed table; verification compares type, name and table of every recorded request with its current route (the comparison of one record may live in a helper whose error is then propagated for every element). The behaviour of Sscanf-based pattern matching itself is not decided.",
 		[]string{"fmt.Sscanf/Sprintf are deterministic", "producers of the individual database types are opaque"},
 		runC26)
 }
@@ -25,7 +22,7 @@ func runC26(c *core.Ctx) {
 	c.Clause("C26.det", func() {
 		roots := []*core.FuncInfo{c.Fn(mdP + "NewProducer"), c.Fn(mdP + "Producer.RouteOf"), c.Fn(mdP + "Producer.OpenDB"), c.Fn(mdP + "Producer.Verify"), c.Fn("utils/fmtfilter.CompileFilter")}
 		reach := core.ReachableFuncs(p, roots, false)
-		n, nRanges := 0, 0
+		n, nRanges, nSorts := 0, 0, 0
 		for _, f := range reach {
 			pkg := core.RelPkg(f.Pkg.PkgPath)
 			if pkg != "kvdb/multidb" && pkg != "utils/fmtfilter" {
@@ -42,10 +39,13 @@ func runC26(c *core.Ctx) {
 					c.Check(!mr.Sensitive(), key, "T10 MapOrder", mr.Stmt.Pos(), "the map iteration order cannot reach the result",
 						"order-sensitive range over a map: "+strings.Join(mr.Reasons, "; ")+" — routing then differs between two producers built from the same tables (e.g. overlapping patterns \"a-%d\" and \"a-%s\" are tried in map order)")
 				}
+				// a slice collected in map order is only as deterministic as the order it is sorted by
+				nSorts += c26SortOrders(c, g)
 			}
 		}
 		c.ExpectAtLeast("functions on the routing path", n, 8)
 		c.ExpectAtLeast("map ranges on the routing path", nRanges, 2)
+		c.ExpectAtLeast("sorts of slices collected in map order", nSorts, 1)
 		// the pattern list is consumed first-match: it is built by the constructor (whose map ranges are
 		// covered above, whether it fills a local that goes into the literal or the field itself);
 		// nobody else writes it
@@ -99,48 +99,7 @@ func runC26(c *core.Ctx) {
 	})
 
 	c.Clause("C26.verify", func() {
-		f := c.Fn(mdP + "Producer.verifyRecords")
-		errRet := func(r *ast.ReturnStmt) bool { return len(r.Results) == 1 && !core.IsNil(f.Info(), r.Results[0]) }
-		type cmp struct{ name, oldF, newF string }
-		want := []cmp{
-			{"type", mdP + "DBLocator.Type", mdP + "Route.Type"},
-			{"name", mdP + "DBLocator.Name", mdP + "Route.Name"},
-			{"table", mdP + "TableRecord.Table", mdP + "Route.Table"},
-		}
-		// the route compared is RouteOf(old.Req)
-		var newRoute *types.Var
-		for _, a := range assignments(f) {
-			if call := isCallTo(f, a.RHS, mdP+"Producer.RouteOf"); call != nil && a.RHS != nil {
-				if _, pth := fieldPath(f, call.Args[0]); len(pth) == 1 && pth[0] == mdP+"TableRecord.Req" {
-					newRoute = varOf(f, a.LHS)
-				}
-			}
-		}
-		c.Need(newRoute != nil, "newRoute := RouteOf(old.Req)")
-		for _, w := range want {
-			ok, why := rejectedWhen(f, func(ft core.Fact) bool {
-				cm, k := core.NormCmp(ft)
-				if !k || cm.R == nil || cm.Op != token.NEQ {
-					return false
-				}
-				is := func(x, y ast.Expr) bool {
-					_, p1 := fieldPath(f, x)
-					r2, p2 := fieldPath(f, y)
-					return len(p1) == 1 && p1[0] == w.oldF && len(p2) == 1 && p2[0] == w.newF && varOf(f, r2) == newRoute
-				}
-				return is(cm.L, cm.R) || is(cm.R, cm.L)
-			}, errRet)
-			c.Check(ok, "changed "+w.name+" => verification fails", "T8 field coverage", f.Pos(), "a differing "+w.name+" leads only to error returns and every record passes that test", "verification does not fail when the "+w.name+" of a recorded request changed: "+why)
-		}
-		// loops are complete (every record of every database is checked), in range or counted form
-		n := 0
-		resolve := func(e ast.Expr) ast.Expr { return resolveLocal(f, e) }
-		for _, lp := range c26Loops(f) {
-			n++
-			it, isIt := core.IterationOf(f, lp, resolve)
-			c.Check(isIt && c26FullIteration(it), fmt.Sprintf("verification loop %d is complete", n), "T2 (loop)", lp.Pos(), "visits every element; left only by returning an error or when exhausted", "verification can stop early (or skip records) without an error")
-		}
-		c.ExpectAtLeast("verification loops", n, 2)
+		c26Verify(c, c.Fn(mdP+"Producer.verifyRecords"))
 	})
 }
 
